@@ -589,6 +589,8 @@ pub fn insn_strategy(set: FormSet) -> BoxedStrategy<Insn> {
             2 => two_operand_forms(vec!["add", "sub", "xor", "or"], false),
             1 => one_operand_forms(vec!["not"]),
             1 => xchg_forms(),
+            // memory operands of PUSH / POP are addressed like any other (the stack side is C05's subject)
+            1 => push_pop_forms(),
         ]
         .boxed(),
         FormSet::Transfer => prop_oneof![
